@@ -7,13 +7,13 @@ NOTE = ("Trusted: Coq 8.16.1 kernel and vm_compute; axioms as listed per theorem
         "generated cases; the Rust harness and the Python driver. A broken correspondence or proof is reported as a violation; a concrete "
         "failing input is searched on the implementation first.")
 T = {
- "C01": ("Theorems: Minimum/Maximum return an element of exactly the last min(t,n) inputs with no smaller/greater element in that window, for every period, every cursor position and every strict total order with top (C01_min_least, C01_max_greatest), instantiated bit-exactly for binary64 without NaN/-0.0 (C01_float_order via Flocq, C01_min_least_binary64, C01_max_greatest_binary64); over the exact carrier (extended reals) SMA, WMA, SD, MAD, BB equal mean / weighted mean / population variance / mean absolute deviation / mean +- m*sd of the last min(t,n) inputs for every stream; the exact-rational oracle of the tolerance check is proved to be the image of that exact real run (C01_t2_oracle, by parametricity of the interpreter). Rounding part (tau) validated by T2 on generated streams: partial; refuted for WMA (known finding K7).",
+ "C01": ("Theorems: Minimum/Maximum return an element of exactly the last min(t,n) inputs with no smaller/greater element in that window, for every period, every cursor position and every strict total order with top (C01_min_least, C01_max_greatest), instantiated bit-exactly for binary64 without NaN/-0.0 (C01_float_order via Flocq, C01_min_least_binary64, C01_max_greatest_binary64); over the exact carrier (extended reals) SMA, WMA, SD, MAD, BB equal mean / weighted mean / population variance / mean absolute deviation / mean +- m*sd of the last min(t,n) inputs for every stream; the exact-rational oracle of the tolerance check is proved to be the image of that exact real run (C01_t2_oracle, by parametricity of the interpreter). The rounding part (tau) is PROVED for SimpleMovingAverage on binary64 (C01_sma_binary64_within_tau: forward error analysis through Flocq, every period < 2^53, up to 2^49 inputs, no-overflow hypothesis explicit) and validated by T2 on generated streams for the others: partial; refuted for WMA (K7) and at overflow scale (K8).",
          "Rocq proofs (ring-buffer rotation invariant, induction over streams; exact-arithmetic refinement; Flocq order instance; Paramcoq abstraction theorem) + bit-exact correspondence + exact-rational tolerance check"),
  "C02": ("Theorems for every number type (bit-exact for binary64): EMA returns its first input and then k*x+(1-k)*prev with k=2/(n+1); TrueRange scalar and bar definitions; ATR = EMA(TR), MACD, KC, CE equal the hand wiring of standalone streams for every period combination. Over exact reals the model's EMA, ATR, MACD and KeltnerChannel streams are the real recursions (C02_ema_exact, closed form C02_ema_closed_form, C02_atr_exact, C02_macd_exact, C02_kc_exact). Agreement of the float recursion with exact evaluation within tau(t): validated by T2 against the exact-rational instance, proved to be the image of the exact real run (partial).",
          "Rocq proofs (stream induction, any carrier) + bit-exact correspondence + exact-rational tolerance check"),
  "C10": ("Theorems for every number type: Next<&T> of the 11 close-only indicators equals Next<f64> on close (Minimum: low, Maximum: high) as an equation of state and output; bars agreeing on the documented read-set are indistinguishable; open is never read; DataItem = any other implementor. One-price bars: FastStochastic / SlowStochastic take exactly the scalar step for every carrier with symmetric == (proved for binary64 from the float axioms, so bit-exact for every float incl. NaN); TrueRange, ATR, KeltnerChannel over exact reals with finite prices ((x+x+x)/3 = x). On binary64 the TR/ATR/KC one-price equality is checked on the implementation (relational) - partial on that component.",
          "Rocq proofs (definitional equalities over 22 kinds; float == symmetry; exact-carrier one-price steps) + bit-exact correspondence + relational checks on the implementation"),
- "C13": ("Theorems: the exact-arithmetic invariants (running state = from-scratch statistic of the current window) are preserved by every step with no bound on the stream length; variance never negative; Minimum exact forever; the exact-rational oracle is the image of the exact real run (C13_t2_oracle). Float drift within tau(t): validated on streams of 2*10^4 (quick) / 2*10^6 (thorough) inputs generated identically on both sides, against a fresh exact instance on the current window (partial); refuted for WMA (K7).",
+ "C13": ("Theorems: the exact-arithmetic invariants (running state = from-scratch statistic of the current window) are preserved by every step with no bound on the stream length; variance never negative; Minimum exact forever; the exact-rational oracle is the image of the exact real run (C13_t2_oracle). Float drift within tau(t): proved for SimpleMovingAverage (C13_sma_binary64_no_drift, up to 2^49 inputs); for the others validated on streams of 2*10^4 (quick) / 2*10^6 (thorough) inputs generated identically on both sides, against a fresh exact instance on the current window (partial); refuted for WMA (K7).",
          "Rocq proofs (unbounded invariants) + twin-generator long-stream correspondence (checkpoints + hash of all outputs) + exact-rational window recomputation"),
  "C15": ("Theorems for every number type (bit-exact): SlowStochastic, ATR, MACD, PPO, KC (scalar and bar), CE, BB (half-width = m*SD, middle = SD's mean), "
          "CCI equal the hand wiring of the standalone streams; over exact reals BB.average = SMA (bb_average_is_sma).",
